@@ -490,7 +490,7 @@ func Run(c *core.Ctx) {
 	c.Set("failing_sink_string_pairs", len(fails))
 	perSink := map[int]int{}
 	for _, f := range fails {
-		if perSink[f.si]++; perSink[f.si] > 6 {
+		if perSink[f.si]++; perSink[f.si] > 3 {
 			continue
 		}
 		s, m := e.shrink(f.si, f.s)
@@ -527,6 +527,9 @@ func Run(c *core.Ctx) {
 					nt++
 				}
 				if m := escaperFault(s, i%64 == 0); m != "" {
+					if c.ViolationCount() > 20 {
+						continue // plenty of canonical witnesses already
+					}
 					red := shrinkLocal(s, func(x string) bool { return escaperFault(x, true) != "" })
 					c.Violate("EscapeString "+strconv.Quote(red), escaperFault(red, true), mkCase("EscapeString", red))
 				}
